@@ -1200,6 +1200,20 @@ func runC17(c *Ctx) {
 		// (C) shared immutable document: encoders and pointer lookups
 		{
 			w := refgraph.Generate(c.Rng, refgraph.Options{Docs: 1, Defs: 4, Elements: true, RefP: 0.4})
+			{
+				// a very wide object (code that treats large objects specially), with ordering extensions
+				props := wire.ObjV()
+				for pi := 0; pi < 150+c.Intn(100); pi++ {
+					ps := wire.ObjV(wire.M("type", wire.StrV("string")))
+					if pi%7 == 0 {
+						ps = ps.Set("x-order", wire.NumV(fmt.Sprint(pi%5)))
+					}
+					props = props.Set(fmt.Sprintf("p%03d", pi), ps)
+				}
+				root := w.Docs[w.Root]
+				defs, _ := root.Get("definitions")
+				w.Docs[w.Root] = root.Set("definitions", defs.Set("wide", wire.ObjV(wire.M("type", wire.StrV("object")), wire.M("properties", props))))
+			}
 			sw, err := decodeSwagger(w.Docs[w.Root])
 			if err != nil {
 				continue
